@@ -240,7 +240,7 @@ def call_op(frm, contract, method, args, ok=True, tag="gov_call"):
                 body=("bvm", ("done",) if ok else ("fail", False)), invalid=False, tag=tag)
 
 
-def gen_governed(r, nm, variant, ledger=""):
+def gen_governed(r, nm, variant, ledger="", pipelined=False):
     """GOVERNED rule history: a chain whose master rule is not the first list entry (the accept-everything
     rule is always registered at index 0); its admin proposes UpdateMasterRule to that earlier rule through the
     real RuleManager, the governance admins reject (or approve); then a junk proof is checked directly and
@@ -250,6 +250,8 @@ def gen_governed(r, nm, variant, ledger=""):
     script = [("pre", s) for s in X.SEED2]
     rules = [["happy", "bindable", "no"], [master, "available", "master"]]
     target = HAPPY_ADDR
+    if variant == "logout":
+        rules = [["happy", "available", "master"]]
     if variant == "tighten":
         # the other direction: the accept-everything rule is the master, the stricter rule becomes the master through
         # the real RuleManager / governance flow AFTER the node has verified IBTPs of the chain
@@ -266,6 +268,8 @@ def gen_governed(r, nm, variant, ledger=""):
     gi = 1
     j = junk("before")
     script += [("check", dict(tx=j["tx"], pdesc=j["pdesc"]), None)]
+    if variant == "logout":
+        return gen_logout(r, nm, script, junk, ledger, pipelined)
     if variant == "tighten":
         jb = junk("before_block")
         jb["body"] = ("ibtp", ("ev", [(cnum("chainB"), False)], ("done",)))
@@ -276,8 +280,18 @@ def gen_governed(r, nm, variant, ledger=""):
     j = junk("pending")
     script += [("check", dict(tx=j["tx"], pdesc=j["pdesc"]), None)]
     voters = ["a:0", "a:1", "a:2"] if decision == "approve" else ["a:0", "a:1"]
-    for v in voters:
-        script.append(("block", [call_op(v, "governance", "Vote", [["pid", "u:5", 0], ["s", decision], ["s", "r"]], tag="vote_" + decision)], {}))
+    votes = [call_op(v, "governance", "Vote", [["pid", "u:5", 0], ["s", decision], ["s", "r"]], tag="vote_" + decision) for v in voters]
+    for vo in votes[:-1]:
+        script.append(("block", [vo], {}))
+    if pipelined:
+        # the DECIDING vote (block N: the binding changes) and an IBTP with a junk proof (block N+1) are handed to the
+        # executor back to back, without waiting for block N to be executed: the proof of block N+1 must be checked
+        # against the state committed by block N, not against the state when block N+1 entered the pipeline
+        script.append(("pipeline", [[votes[-1]], [junk("pipelined")]], "chainG"))
+        if decision == "approve" and variant != "tighten":
+            gi = gi + 1         # accepted under the new (accept-everything) master: the index advances
+    else:
+        script.append(("block", [votes[-1]], {}))
     script.append(("rules", "chainG"))
     j = junk("after")
     script += [("check", dict(tx=j["tx"], pdesc=j["pdesc"]), None)]
@@ -288,7 +302,7 @@ def gen_governed(r, nm, variant, ledger=""):
     if variant == "tighten":
         script.append(("restart",))
         script.append(("block", [junk("after_restart")], {}))
-    return dict(cfg=dict(admins=4, gas=0, audit=False, bal="1000000000000000", ledger=ledger), script=script, governed=variant)
+    return dict(cfg=dict(admins=4, gas=0, audit=False, bal="1000000000000000", ledger=ledger), script=script, governed=variant, pipelined=pipelined)
 
 
 def gen_forged_receipts(nm, dst, pkind, proof_type=""):
@@ -310,6 +324,30 @@ def gen_forged_receipts(nm, dst, pkind, proof_type=""):
     script.append(("block", [X.op_store_set(ids, "u:2", "k1", 7), forged("u:1")], {}))
     script.append(("block", [forged("u:1"), forged("u:2"), X.op_store_set(ids, "u:0", "k2", 8)], {}))
     return dict(cfg=dict(admins=4, gas=0, audit=False, bal="1000000000000000", proof=proof_type), script=script, forged=[dst, pkind, proof_type])
+
+
+def gen_logout(r, nm, script, junk, ledger, pipelined):
+    """the appchain's admin asks for the LOGOUT of the chain through the real AppchainManager; while the proposal is
+    pending the rule records still stand (IBTPs of the chain keep verifying); the third approval logs the chain out and
+    clears its rules.  That deciding vote (block N) and an IBTP of the chain (block N+1) are delivered in lock-step or
+    back to back: the IBTP must be checked against the state committed by block N"""
+    script.append(("block", [call_op("u:5", "appchain", "LogoutAppchain", [["s", "chainG"], ["s", "r"]], tag="logout_appchain")], {}))
+    script.append(("rules", "chainG"))
+    j = junk("pending")
+    script.append(("check", dict(tx=j["tx"], pdesc=j["pdesc"]), None))
+    votes = [call_op(v, "governance", "Vote", [["pid", "u:5", 0], ["s", "approve"], ["s", "r"]], tag="vote_approve") for v in ("a:0", "a:1", "a:2")]
+    for vo in votes[:-1]:
+        script.append(("block", [vo], {}))
+    script.append(("rules", "chainG"))
+    if pipelined:
+        script.append(("pipeline", [[votes[-1]], [junk("pipelined")]], "chainG"))
+    else:
+        script.append(("block", [votes[-1]], {}))
+    script.append(("rules", "chainG"))
+    j = junk("after")
+    script.append(("check", dict(tx=j["tx"], pdesc=j["pdesc"]), None))
+    script.append(("block", [junk("after_block")], {}))
+    return dict(cfg=dict(admins=4, gas=0, audit=False, bal="1000000000000000", ledger=ledger), script=script, governed="logout", pipelined=pipelined)
 
 
 def gen_parallel(nm, size):
@@ -384,6 +422,8 @@ def to_history(g):
             steps.append({"op": "restart"})
         elif item[0] == "rules":
             steps.append({"op": "rules", "chain": item[1]})
+        elif item[0] == "pipeline":
+            steps.append({"op": "blocks", "group": [[o["tx"] for o in ops] for ops in item[1]], "chain": item[2]})
     return {"cfg": g["cfg"], "steps": steps, "timeout_ms": 90000}
 
 
@@ -405,6 +445,18 @@ def build_proof_rows(g, out, flagsets, ids):
             continue
         if item[0] == "rules":
             world.readback(item[1], ob.get("rules"))
+            continue
+        if item[0] == "pipeline":
+            # blocks delivered back to back: no state dump between them; the frame is judged on lock-step blocks, the
+            # proof answers of these by judge_pool
+            if ob.get("hang") or ob.get("blocks") is None:
+                rows.append((None, dict(block=si, problem="hang", tags=[o["tag"] for ops in item[1] for o in ops])))
+                break
+            for ops in item[1]:
+                for o in ops:
+                    run.take_nonce(o["tx"])
+            run.sh.apply_block(ob)
+            world.readback(item[2], ob.get("rules"))
             continue
         if item[0] != "block":
             continue
@@ -441,7 +493,7 @@ def build_pool_row(g, out):
     transaction of a block as a question with the observed answer (accepted = no proof-check failure)"""
     steps = out.get("steps") or []
     world = World()
-    evs, nchecks, nacc = [], 0, 0
+    evs, nchecks, nacc, npipe = [], 0, 0, 0
     for si, item in enumerate(g["script"]):
         if si >= len(steps):
             break
@@ -452,6 +504,24 @@ def build_pool_row(g, out):
             world.readback(item[1], ob.get("rules"))
         elif item[0] == "restart":
             evs.append("HRestart")
+        elif item[0] == "pipeline":
+            if ob.get("blocks") is None:
+                break
+            for bi, ops in enumerate(item[1]):
+                if bi == len(item[1]) - 1:
+                    # the state committed by the blocks before the last one of the group: read back after the group
+                    # (the last block of these groups carries IBTPs only, it does not touch the rule records)
+                    world.readback(item[2], ob.get("rules"))
+                evs.append("(HCommit %s %s)" % (world.gchains(), world.grules()))
+                for o, rc in zip(ops, ob["blocks"][bi].get("receipts") or []):
+                    d = o.get("pdesc")
+                    if d is None:
+                        continue
+                    acc = not (str(rc[1]).startswith("proof") or "proof verify failed" in str(rc[2]))
+                    nchecks += 1
+                    nacc += 1 if acc else 0
+                    npipe += 1
+                    evs.append("(HCheck %s %s %s)" % (gibtp(d["ibtp"], d["pnum"], d["proofhash"]), gproof(d["proof"], d["pnum"]), gbool(acc)))
         elif item[0] == "block":
             if item[1] and ob.get("receipts") is None:
                 break
@@ -466,7 +536,7 @@ def build_pool_row(g, out):
                 evs.append("(HCheck %s %s %s)" % (gibtp(d["ibtp"], d["pnum"], d["proofhash"]), gproof(d["proof"], d["pnum"]), gbool(acc)))
     row = "{| hc_bxh := %s; hc_snapshot := %s; hc_memo := [false]; hc_evs := %s |}" % (
         X.gNn(X.BXH), gbool(g["cfg"].get("ledger") == "complex"), glist(evs))
-    return row, dict(checks=nchecks, accepted=nacc, ledger=g["cfg"].get("ledger") or "simple", restarts=evs.count("HRestart"))
+    return row, dict(checks=nchecks, accepted=nacc, ledger=g["cfg"].get("ledger") or "simple", restarts=evs.count("HRestart"), pipelined_checks=npipe)
 
 
 PPRE = "From BX Require Import Base.Prelude Model.Fees Model.ExecFrame Model.ProofCheck.\nLocal Open Scope N_scope.\n"
@@ -512,6 +582,8 @@ def build_verify_rows(g, out):
             world.seed(item[1])
         if item[0] == "rules":
             world.readback(item[1], steps[si].get("rules"))
+        if item[0] == "pipeline":
+            world.readback(item[2], steps[si].get("rules"))
         if item[0] != "check":
             continue
         ob = steps[si]
@@ -619,6 +691,71 @@ def build_entry_row(g, out, eflagsets):
     return row, dict(ops=g["entry_ops"], obs=obs)
 
 
+# ----------------------------------------------------------------------------- the signed digest (real utils.EncodePackedAndHash)
+
+def be8(x):
+    return int(x).to_bytes(8, "big")
+
+
+def digest_probes(r, quick):
+    """field tuples for the real EncodePackedAndHash: indexes around every byte boundary, every IBTP type and
+    transaction status, and the neighbours (256*k+t, type 0) / (k, type t) that a variable-length integer packing
+    confuses; From/To pairs of equal total length; payload hashes of 32 bytes"""
+    idxs = [0, 1, 2, 3, 255, 256, 257, 258, 259, 511, 512, 513, 65535, 65536, 65537, 2**24, 2**32 - 1, 2**32, 2**32 + 1, 2**40 + 3, 2**56, 2**63, 2**64 - 1]
+    types, stats = [0, 1, 2, 3], [0, 1, 2, 3, 4, 5]
+    fts = [("1357:chainX:svc1", "1356:chainB:svc1"), ("1357:chainX:svc", "11356:chainB:svc1"), ("1356:chainB:svc1", "1357:chainX:svc1")]
+    hashes = [bytes([7] * 32), bytes(range(32)), bytes([0] * 32), bytes([0] * 31 + [1])]
+    probes = []
+    for i in idxs:
+        for t in types:
+            probes.append((fts[0], i, t, hashes[0], 1))
+    for k in (1, 2, 255, 256, 65536):
+        for t in (1, 2, 3):
+            probes.append((fts[0], 256 * k + t, 0, hashes[0], 1))
+            probes.append((fts[0], k, t, hashes[0], 1))
+    for st in stats:
+        for i in (0, 1, 256, 257):
+            probes.append((fts[0], i, 1, hashes[1], st))
+    for ft in fts:
+        for h in hashes:
+            probes.append((ft, 300, 0, h, 0))
+    for _ in range(40 if quick else 600):
+        probes.append((r.choice(fts), r.choice(idxs + [r.randrange(2**64)]), r.choice(types), r.choice(hashes), r.choice(stats)))
+    seen, out = set(), []
+    for p in probes:
+        if p not in seen:
+            seen.add(p)
+            out.append(p)
+    return out
+
+
+def run_digest(exe, probes):
+    lines = []
+    for (frm, to), i, t, h, st in probes:
+        pre = frm.encode() + to.encode() + be8(i) + be8(t) + h + be8(st)
+        lines.append({"from": frm, "to": to, "index": str(i), "type": str(t), "hash": h.hex(), "status": str(st), "pre": pre.hex()})
+    rc, outs, err = vlib.run_driver(exe, "digest", lines, timeout=300)
+    if rc != 0 or len(outs) != len(lines):
+        return None, (err or "")[-800:]
+    return list(zip(probes, lines, outs)), ""
+
+
+def gbytes(b):
+    return glist(["%d" % x for x in b])
+
+
+def digest_rows(res):
+    rows = []
+    for ((frm, to), i, t, h, st), line, out in res:
+        rows.append("{| dp_fields := {| pf_fromto := %s; pf_index := %d; pf_type := %d; pf_hash := %s; pf_status := %d |}; dp_pre := %s; dp_same := %s; dp_digest := %s |}" % (
+            gbytes(frm.encode() + to.encode()), i, t, gbytes(h), st, gbytes(bytes.fromhex(line["pre"])),
+            gbool(bool(out.get("digest")) and out.get("digest") == out.get("pre_digest") and not out.get("err")), gbytes(bytes.fromhex(out.get("digest") or ""))))
+    return rows
+
+
+DPRE = "From BX Require Import Base.Prelude Model.Packed.\nLocal Open Scope N_scope.\n"
+
+
 # ----------------------------------------------------------------------------- run
 
 def flag_setup():
@@ -637,7 +774,7 @@ def crash_corpus(nm):
 
 
 def run(ctx):
-    ctx.proofs(["Proofs/ProofCheckProofs", "Proofs/ExecFrameProofs"], model_targets=["Fees", "ExecFrame", "Sites", "ProofCheck"])
+    ctx.proofs(["Proofs/ProofCheckProofs", "Proofs/ExecFrameProofs", "Proofs/PackedProofs"], model_targets=["Fees", "ExecFrame", "Sites", "ProofCheck", "Packed"])
     exe, err = vlib.build_harness("execframe")
     if exe is None:
         ctx.broken("harness-build", err)
@@ -649,6 +786,10 @@ def run(ctx):
         gitems = [gen_governed(ctx.rng, nm, v, ledger=l) for v, l in
                   ([("reject", ""), ("approve", "complex"), ("tighten", "complex"), ("tighten", "")] if ctx.quick else
                    [(v, l) for v in ("reject", "approve", "tighten") for l in ("", "complex")] * 3)]
+        gitems += [gen_governed(ctx.rng, nm, v, ledger=l, pipelined=True) for v, l in
+                   ([("logout", ""), ("logout", "complex"), ("tighten", ""), ("approve", "")] if ctx.quick else
+                    [(v, l) for v in ("logout", "tighten", "approve", "reject") for l in ("", "complex")] * 2)]
+        gitems += [gen_governed(ctx.rng, nm, "logout", ledger=l) for l in ("", "complex")]
         pitems += gitems
         uitems = [gen_rule_update(nm, l, ch, rs) for l in ("", "complex") for ch in ("rule_fabric", "rule_none", "rule_logouting", "unregistered", "trust")
                   for rs in (False, True)]
@@ -721,7 +862,7 @@ def run(ctx):
         else:
             dist = {}
             for (g, out, row, info), v in zip(hrows, vs):
-                key = "%s/restarts=%d" % (info["ledger"], min(info["restarts"], 1))
+                key = "%s/restarts=%d%s" % (info["ledger"], min(info["restarts"], 1), "/pipelined" if info.get("pipelined_checks") else "")
                 dist[key] = dist.get(key, 0) + 1
                 ctx.count(case_key=json.dumps(["h", row[-300:], info]), nontrivial=0 < info["accepted"] < info["checks"],
                           sample=dict(driver="execframe", kind="pool", info=info, verdict=v))
@@ -733,6 +874,44 @@ def run(ctx):
                 elif v[0] != 0:
                     ctx.broken("correspondence:judge_pool", "first differing history: replay=%s %s" % (X.save_mismatch(ctx, rep), json.dumps(rep)[:600]))
             ctx.extra["pool_histories"] = dist
+        # --- the digest the validators sign: the real EncodePackedAndHash on probe tuples
+        res, e = run_digest(exe, digest_probes(ctx.rng, ctx.quick))
+        if res is None:
+            ctx.broken("driver:execframe digest", e)
+        else:
+            # one judge call per group of probes (the injectivity predicate is pairwise inside a group); the groups overlap
+            # in the structured probes, which come first
+            rows = digest_rows(res)
+            groups = [rows[i:i + 120] for i in range(0, len(rows), 100)]
+            vs, msg = vlib.coq_judge_sharded("C03_digest", DPRE, "list dprobe", "judge_digest", [glist(g) for g in groups], shard=2)
+            if vs is None:
+                ctx.broken("correspondence:judge_digest", msg)
+            else:
+                for gi, v in enumerate(vs):
+                    sub = res[gi * 100: gi * 100 + 120]
+                    for (p, line, out) in sub[:100]:
+                        ctx.count(case_key=json.dumps(["d", line["from"], line["to"], line["index"], line["type"], line["hash"], line["status"]]),
+                                  nontrivial=int(line["index"]) >= 256, sample=dict(driver="execframe", kind="digest", probe=line, digest=out.get("digest"), verdict=v))
+                        ctx.traces_validated += 1
+                    rep = dict(property=PID, kind="digest", probes=[l for _, l, _ in sub], verdict=v)
+                    if v[0] == 2:
+                        # name a colliding pair
+                        byd = {}
+                        pair = None
+                        for (p, line, out) in sub:
+                            key = out.get("digest")
+                            fields = (line["from"] + line["to"], line["index"], line["type"], line["hash"], line["status"])
+                            if key in byd and byd[key][0] != fields:
+                                pair = [byd[key][1], line]
+                                break
+                            byd.setdefault(key, (fields, line))
+                        rep["colliding"] = pair
+                        rep["probes"] = pair or rep["probes"]
+                        ctx.violation("EncodePackedAndHash gives two different (from/to, index, type, payload hash, status) tuples the same digest: a "
+                                      "signature over one verifies the other", rep)
+                    elif v[0] != 0:
+                        ctx.broken("correspondence:judge_digest", "replay=%s the real digest is not keccak256 of the model's fixed-width packing" % X.save_mismatch(ctx, rep))
+                ctx.extra["digest_probes"] = len(rows)
         # --- multisig differential
         mrows = []
         for g, out in zip(mitems, mo):
@@ -791,6 +970,15 @@ def run(ctx):
 def replay(ctx, path):
     obj = json.load(open(path))
     exe, err = vlib.build_harness("execframe")
+    if obj.get("kind") == "digest":
+        probes = [((l["from"], l["to"]), int(l["index"]), int(l["type"]), bytes.fromhex(l["hash"]), int(l["status"])) for l in obj["probes"]]
+        res, e = run_digest(exe, probes)
+        if res is None:
+            print(e)
+            return 1
+        vs, msg = vlib.coq_judge_sharded("C03_digest_r", DPRE, "list dprobe", "judge_digest", [glist(digest_rows(res))])
+        print(json.dumps(dict(digests=[o.get("digest") for _, _, o in res], verdicts=vs, msg=msg[-300:])))
+        return 1 if vs is None or any(v[0] != 0 for v in vs) else 0
     g = obj["g"]
     for item in g["script"]:
         if item[0] == "block":
